@@ -192,6 +192,7 @@ def str2num(x, signed=True, n_word=None, n_frac=None, base=10, return_sizes=Fals
         _n_word_max = None
         _n_frac_max = None
 
+        x = list(x)     # work on a copy: do not modify caller's container (tuples are immutable)
         for idx, v in enumerate(x):
             x[idx], _signed, _n_word, _n_frac = str2num(v, signed, n_word, n_frac, base, return_sizes=True)
 
